@@ -301,8 +301,12 @@ func Check(p *Prop, tier string, workerExe string) int {
 		fmt.Println("INFRA: cannot write evidence:", err)
 		return 2
 	}
-	fmt.Printf("summary: runs=%d sub=%d nontrivial=%d distinct=%d states=%d faults=%v known_hits=%v violations=%d wall=%.1fs\n",
-		agg.Evaluations, agg.SubRuns, agg.NonTrivial, len(fps), len(states), agg.Fired, agg.KnownHits, violations, wall)
+	kh := 0
+	for _, v := range agg.KnownHits {
+		kh += v
+	}
+	fmt.Printf("summary: runs=%d sub=%d nontrivial=%d distinct=%d states=%d faults=%v known_hits=%d (in %d signatures) violations=%d wall=%.1fs\n",
+		agg.Evaluations, agg.SubRuns, agg.NonTrivial, len(fps), len(states), agg.Fired, kh, len(agg.KnownHits), violations, wall)
 	zero := []string{}
 	for k, v := range agg.Probes {
 		if v == 0 {
